@@ -35,6 +35,8 @@ func (e *Expr) String() string {
 		return e.Name + e.Args[0].String()
 	case "bin":
 		return "(" + e.Args[0].String() + " " + e.Name + " " + e.Args[1].String() + ")"
+	case "index":
+		return e.Args[0].String() + "[" + e.Args[1].String() + "]"
 	case "cond":
 		return "(" + e.Args[0].String() + " ? " + e.Args[1].String() + " : " + e.Args[2].String() + ")"
 	}
@@ -274,6 +276,17 @@ func (ps *exprParser) parsePostfix() (*Expr, error) {
 				return nil, fmt.Errorf("expected selector name in %q", ps.src)
 			}
 			e = &Expr{Op: "sel", Name: n.s, Args: []*Expr{e}}
+			continue
+		}
+		if ps.accept("[") {
+			idx, err := ps.parse(0)
+			if err != nil {
+				return nil, err
+			}
+			if !ps.accept("]") {
+				return nil, fmt.Errorf("expected ']' in %q", ps.src)
+			}
+			e = &Expr{Op: "index", Args: []*Expr{e, idx}}
 			continue
 		}
 		if ps.accept("(") {
